@@ -94,7 +94,14 @@ func c10Run(kv kvi.KVInterface, tag string) {
 			vAssert(id("delete-ok"), kv.Delete(k) == nil)
 			model.del(k)
 		case 2:
-			p := c10Key(name + ".p")
+			// a key of the universe, or any two-byte prefix (all 65536 values: prefixes
+			// ending in 0xff, prefixes just below or above a stored key, ...)
+			var p []byte
+			if pc := vChoice(name+".p", vParam("NK", 4)+1); pc < vParam("NK", 4) {
+				p = []byte(c10Keys[pc])
+			} else {
+				p = []byte{vNondetByte(name + ".p0"), vNondetByte(name + ".p1")}
+			}
 			vAssert(id("deleteprefix-ok"), kv.DeletePrefix(p) == nil)
 			var ks, vs [][]byte
 			for i := range model.keys {
